@@ -49,7 +49,7 @@ class C02(Harness):
         if tier == 'quick':
             schemas = ['S1', 'S2', 'S3', 'S4', 'S5', 'S7', 'S9', 'S13', 'S14']
             shapes = [s for s in gen.shapes(3) if 'e' not in s or len(s) <= 2]
-            shapes += ['ukkc', 'okkc', 'uufcc'[:0] or 'uucc', 'ukuc'[:0] or 'kukc']
+            shapes += ['ukkc', 'okkc', 'uufcc'[:0] or 'uucc', 'ukuc'[:0] or 'kukc', 'ukck']
         else:
             schemas = gen.THOROUGH
             shapes = gen.shapes(4) + ['uukcc', 'oukcc', 'ukkkc', 'kukck']
